@@ -1,5 +1,5 @@
 """Property -> rules mapping."""
-from .rules import hdr, hyg
+from .rules import cfg, det, hdr, hyg
 
 PROPS = {}
 
@@ -31,6 +31,38 @@ prop(
         "assumptions": [
             "NOT decided: that every well-typed input type-checks after expansion (trait solving over arbitrary field types); only header/generics/lint necessary conditions",
             "deprecated-lint behaviour inside derive expansions (fires for paths to deprecated variants, not for field access) as observed on the installed toolchains",
+        ],
+    },
+)
+
+
+prop(
+    "C19",
+    [det.rule_det_hasher, det.rule_det_ambient, det.rule_det_state],
+    meta={
+        "explanation": "Determinism decided on the type-checked program: rustc's own MIR of derive_more-impl (all features) is searched for every hashed-collection "
+        "instantiation, every resolved call and every static; nothing is executed.",
+        "assumptions": [
+            "syn, quote, proc-macro2, convert_case, unicode-xid are pure (their MIR is not analysed)",
+            "DefaultHasher::default() is a fixed function within one toolchain",
+            "cfg(test) code is excluded (cargo check of the lib target)",
+        ],
+    },
+)
+
+
+prop(
+    "C20",
+    [cfg.rule_cfg_manifest, cfg.rule_cfg_export, cfg.rule_cfg_matrix],
+    level="proof",
+    meta={
+        "explanation": "cfg algebra over all feature assignments (obligation = gate of the code that emits/uses a name implies the gate of its definition, discharged by "
+        "exhaustive evaluation over the features mentioned) plus rustc's own type-check of every single-feature configuration with and without std.",
+        "checker_cmd": "bin/check C20",
+        "trusted_base": ["syn 2.0.119 parser", "cargo/rustc type-check of each configuration", "python cfg evaluator (exhaustive truth tables)"],
+        "assumptions": [
+            "NOT decided: that the derive's test program *passes* at run time in each configuration, only that it type-checks (thorough tier: --tests)",
+            "flags other than features (docsrs, ci, nightly) are free variables",
         ],
     },
 )
